@@ -176,6 +176,9 @@ func vh_C11_L2_credit_and_full_buffer() {
 	stored := held > heldBefore
 	fillsGap := vInWindow(a, cum, t) && t-cum < 5
 	vassert(stored == fillsGap, "with a zero window only chunks below the highest TSN received are stored")
+	if stored {
+		vassert(sna32LTE(t, a.peerLastTSN()) || a.payloadQueue.hasChunk(t), "a chunk that was stored is also recorded as received: the next SACK covers it cumulatively or names it in a gap block")
+	}
 	vassert(a.willSendAbort == false, "a full buffer is not a protocol violation")
 	vobserve("stored", vb2u(stored))
 	vcover("end")
